@@ -25,8 +25,18 @@ struct D {
     failed_once: Option<usize>,
     /// the first update-check attempt of every check fails in transit (instead of the server.update choice)
     backoff_script: bool,
+    /// the policy prescribes a minimum wait of 7 s with every timing
+    min_wait: bool,
 }
 impl Director for D {
+    fn compute_next(&mut self, w: &mut Inner) -> omaha_client::common::CheckTiming {
+        let now = w.clock_peek();
+        if self.min_wait {
+            omaha_client::common::CheckTiming::builder().time(now).minimum_wait(std::time::Duration::from_secs(7)).build()
+        } else {
+            omaha_client::common::CheckTiming::builder().time(now).build()
+        }
+    }
     fn check_allowed(&mut self, w: &mut Inner, opts: Src) -> CheckAns {
         if w.choose("policy.check", 2) == 0 {
             CheckAns::Ok(Params::default_for(opts))
@@ -405,6 +415,7 @@ fn run_script2(ctx: &RunCtx, tier: Tier, n_total: usize, backoff_script: bool, a
         refused: 0,
         failed_once: None,
         backoff_script,
+        min_wait: false,
     };
     let mut e = Exec::new(s, Box::new(d), Store::default());
     if abandoning {
@@ -528,6 +539,7 @@ fn run_with_budget(ctx: &RunCtx, mode: DropMode) -> RunOut {
         refused: 0,
         failed_once: None,
         backoff_script: false,
+        min_wait: false,
     };
     let mut e = Exec::new(s, Box::new(d), Store::default());
     if n_clients > 0 {
@@ -607,6 +619,8 @@ fn run_no_timer(ctx: &RunCtx) -> RunOut {
         refused: 0,
         failed_once: None,
         backoff_script: false,
+        // with a minimum wait prescribed, the machine still has to listen to requests while that timer is pending
+        min_wait: choose("policy.minimum_wait", 2) == 1,
     };
     let mut e = Exec::new(s, Box::new(d), Store::default());
     let o1 = [Src::Scheduled, Src::OnDemand][choose("options", 2)];
@@ -697,7 +711,7 @@ fn parts(tier: Tier) -> Vec<PartDef> {
     v.push(PartDef::new(
         "wake-without-timer",
         Cfg::new("C11/wake-without-timer"),
-        json!({"requests": "two by one client, options exhaustive", "first_request_at": "every step 0..39 of the default schedule", "after_that": "no timer is ever fired", "select_order": ["identity", "reverse"], "policy_answers": 2, "server_answers": 2, "reboot_refusals": [1, 2],
+        json!({"requests": "two by one client, options exhaustive", "first_request_at": "every step 0..39 of the default schedule", "after_that": "no timer is ever fired", "policy_minimum_wait": ["none", "7 s"], "select_order": ["identity", "reverse"], "policy_answers": 2, "server_answers": 2, "reboot_refusals": [1, 2],
                "oracle": "both requests are answered (truthfully) although no timer fires"}),
         move |ctx| run_no_timer(ctx),
     ));
